@@ -32,6 +32,9 @@ def _curve_shapes(pmax, extra, rational_for):
                     out.append(dict(p=p, mult=list(mult), r=r, rational=False, dim=2))
                     if p in rational_for and k <= 2:
                         out.append(dict(p=p, mult=list(mult), r=r, rational=True, dim=2))
+    # clamped knot vectors kept as given (normalize_kv=False, symbolic range [a, b])
+    out += [dict(p=2, mult=[1], r=1, rational=False, dim=2, norm=False), dict(p=3, mult=[2], r=2, rational=False, dim=2, norm=False),
+            dict(p=2, mult=[1], r=2, rational=True, dim=2, norm=False)]
     return out
 
 
@@ -40,19 +43,19 @@ def _curve_shapes(pmax, extra, rational_for):
                       'BSpline.Curve.insert_knot', 'NURBS.Curve.ctrlptsw'],
           quick=lambda: _curve_shapes(3, 3, (2,)) ,
           thorough=lambda: _curve_shapes(4, 4, (2, 3)))
-def curve_insert(ctx, p, mult, r, rational, dim):
+def curve_insert(ctx, p, mult, r, rational, dim, norm=True):
     """requires: valid clamped knot vector, x in the open domain and tol-separated from every knot,
                  positive weights, u in the domain
        ensures : r <= p - s  ==>  evaluate(u) unchanged, kv == sorted insertion, size grows by r
                  r >  p - s  ==>  operations.insert_knot raises GeomdlException, method leaves object unchanged"""
-    U, inner, n = shapes.make_kv(ctx, p, mult)
+    U, inner, n = shapes.make_kv(ctx, p, mult, normalized=norm)
     x = shapes.param_in(ctx, 'x', U[0], U[-1], open_lo=True, open_hi=True)
     for k in [U[0]] + inner + [U[-1]]:
         ctx.assume(ctx.sep(x, k, MULT_TOL))
     u = shapes.param_in(ctx, 'u', U[0], U[-1])
     P = shapes.net(ctx, 'P', n, dim)
     W = shapes.weights(ctx, 'w', n) if rational else None
-    crv = shapes.build_curve(ctx, p, U, P, W)
+    crv = shapes.build_curve(ctx, p, U, P, W, normalize_kv=norm)
     Pw = shapes.homog(P, W)
     if rational:
         ctx.assume_pos(spec.curve_point(p, U, [[w] for w in W], u)[0], 'L.weight_function_positive')
